@@ -3,6 +3,7 @@
 package bufprotopluginos
 
 import (
+	"archive/zip"
 	"context"
 	"io"
 	"io/fs"
@@ -26,7 +27,8 @@ import (
 // (engine/intercepts_plugin.go), which records the content of the bucket handed to the zip writer together with the
 // file it is written to - the cut is in front of archive/zip. The directory flush runs the real storage.Copy into an
 // in-memory bucket handed out by a stub storageos.Provider that records the root path.
-// Natively (replay) the staging part runs on a real temporary directory; the flush part is engine-only.
+// Natively (replay) everything runs on a real temporary directory: archives are really zipped and read back with
+// archive/zip; directory outs still go to the stub provider's in-memory buckets.
 // ===================================================================================================
 
 type viZipRecord struct {
@@ -166,10 +168,9 @@ func viIsArchive(out string) bool {
 }
 
 // VerifLemma_C17C_OutIsolation: 1..PLUGINS plugins, each with an out from the pool {gen, gen/a.jar, gen/b.jar, gen/sub,
-// gen/c.zip} (equal or different) and one generated file with a symbolic name and content. After the AddResponse calls
-// there is one staging bucket per distinct out, keyed by that out, holding exactly the files of the plugins whose out
-// it is (plus the manifest for .jar); Close hands each staging bucket to exactly its own destination (archive file /
-// directory root) and nothing else is created.
+// gen/c.zip} (equal or different) and one generated file with a symbolic name and content. After AddResponse for
+// every plugin and Close, every out location (archive file / directory root) holds exactly the files of the plugins
+// whose out it is (plus the manifest for .jar), nothing is opened before Close, and nothing else is created.
 func VerifLemma_C17C_OutIsolation() {
 	ctx := context.Background()
 	thread.SetParallelism(1)
@@ -224,6 +225,10 @@ func VerifLemma_C17C_OutIsolation() {
 			}
 		}
 		if archive && exp == nil && !genExists && !create {
+			// an error - whether AddResponse or the flush reports it is not specified
+			if err == nil {
+				err = w.Close()
+			}
 			verifAssert(err != nil, "an archive out in a missing directory is an error unless directories are to be created")
 			verifCover("archive out in a missing directory rejected")
 			return
@@ -255,38 +260,32 @@ func VerifLemma_C17C_OutIsolation() {
 	}
 	verifCover("responses staged")
 
-	// ---- staging state: one bucket per distinct out, keyed by that out, holding exactly its plugins' files ----
-	verifAssert(len(w.readWriteBuckets) == len(exps), "one staging bucket per distinct out location")
-	verifAssert(len(w.closers) == len(exps), "one flush action per distinct out location")
+	// "cached in-memory ... flushed by closing" (bufgen.Generate): nothing is opened before Close. How the staged
+	// responses are kept (w.readWriteBuckets, w.closers) is an implementation detail and not asserted.
 	verifAssert(len(provider.opened) == 0, "staging opens no output directory")
-	for _, exp := range exps {
-		bucket, ok := w.readWriteBuckets[exp.out]
-		verifAssert(ok, "the staging bucket of an out is keyed by that out")
-		paths, datas := viBucketContents(bucket)
-		viCheckContents(paths, datas, exp, "staging bucket")
-	}
-	if !inEngine {
-		return
-	}
 
-	// ---- flush (engine only): every staging bucket goes to exactly its own destination ----
+	// ---- flush: every out location receives exactly the files of its own plugins; nothing else is created ----
+	// (no order of the flushes and no number of flush attempts is asserted; no failure is injected here)
 	err := w.Close()
 	verifAssert(err == nil, "Close succeeds")
 	verifCover("flushed")
-	nArchives, nDirs := 0, 0
 	for _, exp := range exps {
 		if exp.archive {
-			nArchives++
-			hits := 0
-			for _, z := range viFSState.zips {
-				if z.file == exp.out {
-					hits++
-					viCheckContents(z.paths, z.datas, exp, "archive")
+			if inEngine {
+				hits := 0
+				for _, z := range viFSState.zips {
+					if z.file == exp.out {
+						hits++
+						viCheckContents(z.paths, z.datas, exp, "archive")
+					}
 				}
+				verifAssert(hits >= 1, "every archive out is written, to its own file")
+			} else {
+				paths, datas, ok := viReadArchiveNative(exp.out)
+				verifAssert(ok, "every archive out is written, to its own file")
+				viCheckContents(paths, datas, exp, "archive")
 			}
-			verifAssert(hits == 1, "every archive out is written exactly once, to its own file")
 		} else {
-			nDirs++
 			hits := 0
 			for i, root := range provider.opened {
 				if root == exp.out {
@@ -295,10 +294,59 @@ func VerifLemma_C17C_OutIsolation() {
 					viCheckContents(paths, datas, exp, "directory")
 				}
 			}
-			verifAssert(hits == 1, "every directory out is flushed exactly once, to its own root")
+			verifAssert(hits >= 1, "every directory out is flushed, to its own root")
 		}
 	}
-	verifAssert(len(viFSState.zips) == nArchives && len(viFSState.created) == nArchives, "no archive file other than the configured outs is created")
-	verifAssert(len(provider.opened) == nDirs, "no directory other than the configured outs is opened")
-	verifAssert(len(w.readWriteBuckets) == 0 && len(w.closers) == 0, "Close resets the staging state")
+	isOut := func(location string, archive bool) bool {
+		for _, exp := range exps {
+			if exp.out == location && exp.archive == archive {
+				return true
+			}
+		}
+		return false
+	}
+	for _, root := range provider.opened {
+		verifAssert(isOut(root, false), "no directory other than the configured outs is opened")
+	}
+	if inEngine {
+		for _, name := range viFSState.created {
+			verifAssert(isOut(name, true), "no file other than the configured archive outs is created")
+		}
+		for _, z := range viFSState.zips {
+			verifAssert(isOut(z.file, true), "no file other than the configured archive outs is created")
+		}
+	} else {
+		entries, err := os.ReadDir(base + "/gen")
+		if err == nil {
+			for _, entry := range entries {
+				if !entry.IsDir() {
+					verifAssert(isOut(base+"/gen/"+entry.Name(), true), "no file other than the configured archive outs is created")
+				}
+			}
+		}
+	}
+}
+
+// viReadArchiveNative reads a zip archive back from the real file system (native replay only; never interpreted).
+func viReadArchiveNative(path string) ([]string, []string, bool) {
+	reader, err := zip.OpenReader(path)
+	if err != nil {
+		return nil, nil, false
+	}
+	defer reader.Close()
+	var paths, datas []string
+	for _, file := range reader.File {
+		rc, err := file.Open()
+		if err != nil {
+			return nil, nil, false
+		}
+		data, err := io.ReadAll(rc)
+		rc.Close()
+		if err != nil {
+			return nil, nil, false
+		}
+		paths = append(paths, file.Name)
+		datas = append(datas, string(data))
+	}
+	return paths, datas, true
 }
